@@ -139,3 +139,69 @@ func stepSweep(n int, roles []int, amevs, maxs, reqs []int, txcfgs [][2]int, api
 	}
 	return jobs
 }
+
+// ---------------------------------------------------------------- step-based property plans
+
+var stepAssumptions = []string{
+	"pre-state: any state satisfying the representation invariant Inv (DESIGN §5; harness/dbft/zz_verif_inv.go), established by construction or vAssume; states behind known finding KF-1 are outside Inv",
+	"payload authentication is the application's (a payload attributed to validator i was produced by i); an incoming payload never carries the receiver's own index",
+	"hashes are injective uninterpreted functions of the content (the Hash interface's documented contract); signatures are Dolev-Yao tokens (valid iff produced by that key for that block)",
+	"application callbacks (VerifyBlock, Verify*, ProcessBlock, GetTx, Sign, SetData ...) return arbitrary results that are deterministic functions of their arguments within one call",
+	"0 < TimePerBlock <= 2^40 ns, MaxTimePerBlock >= TimePerBlock when set, ViewNumber <= 20 in the pre-state, clock readings in [0, 2^62)",
+	"proposals list pairwise distinct transaction hashes",
+	"single goroutine; callbacks do not re-enter the library",
+}
+
+type cellSpec struct {
+	roles, amevs, maxs, reqs []int
+	tx                       [][2]int
+	apis                     []int
+	extra                    map[string]int
+}
+
+func (c cellSpec) jobs(n int, want []string, budget int) []*Job {
+	maxs := c.maxs
+	if maxs == nil {
+		maxs = []int{0}
+	}
+	tx := c.tx
+	if tx == nil {
+		tx = [][2]int{{0, 0}}
+	}
+	js := stepSweep(n, c.roles, c.amevs, maxs, c.reqs, tx, c.apis, want, budget)
+	for _, j := range js {
+		for k, v := range c.extra {
+			j.Params[k] = v
+		}
+	}
+	return js
+}
+
+var allMsgApis = []int{apiChangeView, apiPrepareRequest, apiPrepareResponse, apiCommit, apiPreCommit, apiRecoveryRequest, apiRecoveryMessage}
+var allApis = []int{apiChangeView, apiPrepareRequest, apiPrepareResponse, apiCommit, apiPreCommit, apiRecoveryRequest, apiRecoveryMessage, apiTimeout, apiTransaction, apiNewTransaction}
+
+func stepPlan(prop, tier string, want []string, cells []cellSpec, budget int) *Plan {
+	p := &Plan{Property: prop, Tier: tier, Patterns: []string{"."}}
+	seen := map[string]bool{}
+	for _, c := range cells {
+		for _, j := range c.jobs(4, want, budget) {
+			k := j.String()
+			if !seen[k] {
+				seen[k] = true
+				p.Jobs = append(p.Jobs, j)
+			}
+		}
+	}
+	p.Assumptions = append(append([]string{}, stepAssumptions...), commonAssumptions...)
+	p.Bounds = map[string]string{
+		"validators":    "N = 4 (own index and primary index concrete per job; sender index symbolic)",
+		"height_view":   "height symbolic (32 bit), view symbolic <= 20",
+		"transactions":  "proposals with 0..1 transactions (per job), each held or missing",
+		"steps":         "ONE API call from an arbitrary Inv state (inductive step): covers histories of any length as far as Inv is inductive",
+		"recovery":      "received recovery messages carry <= 1 payload per category",
+		"cache":         "empty cache in the pre-state for the step harness; cached-payload replay is examined by the Reset harness",
+		"solver_limits": "5 s primary (z3 5.1), 20 s fallbacks (cvc5, z3 4.8, cvc5 int-blasting); an undecided query makes the run inconclusive",
+	}
+	p.Outside = []string{"N other than 4 (thorough adds 1, 2, 3, 5, 7)", "views above 20", "proposals with more than one transaction (thorough: two)", "map iteration orders other than insertion order for cached payloads"}
+	return p
+}
